@@ -675,7 +675,7 @@ class Tr:
         if t2 == "lit":
             t2 = t1
         if t1 == "lit":
-            t1 = t2 = want or "usize"
+            t1 = t2 = want if isint(want) else "usize"
         if t1 != t2:
             raise Unsupported("operand types %s %s %s" % (t1, op, t2))
         bs = b1 + b2
@@ -1497,6 +1497,7 @@ TARGETS = [
     ("src/algorithms/div/small.rs", None, "div_nx2", "div_nx2", "g_div_nx2", None),
     # Montgomery multiplication: const-generic arrays, nested counted loops (reduce1_carry: model function)
     ("src/algorithms/mul_redc.rs", None, "mul_redc", "mul_redc", "g_mul_redc", None),
+    ("src/algorithms/mul_redc.rs", None, "square_redc", "square_redc", "g_square_redc", None),
     # inherent methods of Uint<BITS, LIMBS>: generated with leading (BITS LIMBS : Z) parameters
     ("src/lib.rs", UINT_IMPL, "masked", "U.masked", "g_masked", "uint"),
     ("src/lib.rs", UINT_IMPL, "from_limbs", "U.from_limbs", "g_from_limbs", "uint"),
